@@ -36,6 +36,10 @@ var fieldAlphabet = []fieldKind{
 	{"Any", "interface{}", "interface{}"},
 	{"Count", "uint", "uint"},
 	{"Title", "string", "string"},
+	// fields that differ from another one only in letter case (lookups under :case:off)
+	{"NAME", "string", "string"},
+	{"Id", "int64", "int64"},
+	{"email", "string", "string"},
 }
 
 var structNames = []string{"User", "Item", "Order", "Pet"}
@@ -347,6 +351,13 @@ func GenWorld(r *Rng, opts GenOpts, variantCount int) *WorldSpec {
 				}
 				if vr.Chance(1, 5) {
 					m.notations = append(m.notations, ":getter")
+				}
+				if opts.Rich && vr.Chance(1, 8) {
+					// notations that are reserved but not implemented (today: a line on stdout);
+					// two candidates with different result types for one interface{} field
+					fmt.Fprintf(helpers, "func anyToS%d(v interface{}) string { return \"s\" }\n\nfunc anyToI%d(v interface{}) int { return 1 }\n\n", mcount, mcount)
+					m.notations = append(m.notations, fmt.Sprintf(":conv:type anyToS%d", mcount), fmt.Sprintf(":conv:type anyToI%d", mcount))
+					feat["reserved-notations"] = true
 				}
 				// field-level notations
 				for _, f := range d.fields {
